@@ -37,6 +37,8 @@ var lbItems = []lbItem{
 	{"unicode_space", "\u3000"}, {"unicode_space", "\u2003"}, {"unicode_space", "\u200b"}, {"unicode_space", "\ufeff"},
 	{"ascii", "x"},
 	{"multibyte", "é"}, {"multibyte", "世"}, {"multibyte", "😀"},
+	{"supplementary", "\U00010000"}, {"supplementary", "\U00020000"}, {"supplementary", "\U0010FFFF"},
+	{"combining", "\u0301"}, {"wide", "\uff21"},
 	{"punct", ";"}, {"punct", "{ }"}, {"punct", "'"}, {"punct", "//"}, {"punct", "/*"}, {"punct", "+"},
 	{"esc_n", "\\n"}, {"esc_t", "\\t"}, {"esc_dquote", "\\\""}, {"esc_backslash", "\\\\"},
 	{"esc_undefined", "\\d"}, {"esc_undefined", "\\r"}, {"esc_undefined", "\\é"},
